@@ -2,6 +2,7 @@
 import EinoV.Model.C16
 import EinoV.Model.C16Keys
 import EinoV.Model.C16Slices
+import EinoV.Model.C16Resume
 namespace EinoV.Expected.C16
 def facts : EinoV.C16.Facts :=
   { typeCmpIdentity := true, typeCmpImplements := false, strip := 1, passSubPathIsError := true, nestedCopies := true,
@@ -11,4 +12,6 @@ def keyFacts : EinoV.C16.KeyFacts :=
   { inKeyFwdInvoke := true, inKeyFwdTransform := true, outKeyFwdInvoke := true, outKeyFwdTransform := true }
 /-- every list of `optMap` grows by `append` from the map's own slot -/
 def sliceFacts : EinoV.C16.SliceFacts := { valsGrowFromMapSlot := true }
+/-- every task – restored from a checkpoint or new – gets its node callbacks -/
+def resumeFacts : EinoV.C16.ResumeFacts := { restoredTaskGetsNodeCallbacks := true }
 end EinoV.Expected.C16
